@@ -9,7 +9,7 @@
                           three-term recurrences evaluated in exact rationals) to 1e-9 relative; cumulative bases are the suffix sums.
                           Non-negativity, partition of unity, end values and recurrences are properties of those definitions.
  monomial_derivative      symbolic u: entry k equals d^p/du^p u^k (exact, nf), K <= 10, p <= K+1;  monomial_integral: exact constants for every K <= 10, P <= K
- lagrange_basis           symbolic nodes, K <= 3: p_i(t_j) == delta_ij (exact, nf)
+ lagrange_basis           symbolic nodes, K <= 4: p_i(t_j) == delta_ij (exact, nf); K = 5..10: [bounded] exact rational evaluation at sampled nodes
  lgr_nodes<K>             K = 1..16: nodes are roots of P_{K-1} + P_K and the weights integrate x^j, j <= 2K-2, over [-1,1] to 1e-9
                           (exact rational evaluation of the constants)
  integrate_absolute_polynomial   on every path: the clamped break points are real roots of A t^2 + B t + C (exact, nf) in increasing
@@ -19,6 +19,7 @@
                           intervals and are not decided.
 """
 import math
+import random
 import os
 import sys
 from fractions import Fraction
@@ -343,6 +344,43 @@ def run_runtime(tier="quick", seed=0):
                             lambda r: {"t%d" % i: i + r.uniform(-0.3, 0.3) for i in range(K + 1)}, pv, (xt, "lag_%d" % K, bufs), seed=seed)
         guarded(res, "%s/lagrange_basis<%d>" % (tag, K), go2)
 
+    # lagrange_basis for the remaining degrees: [bounded] the symbolic coefficient expressions evaluated EXACTLY (rational arithmetic)
+    # at sampled node sets -- p_i(t_j) == delta_ij must hold exactly there
+    for K in [k for k in LAG_KS if k not in LAG_SYM]:
+        def go2b(K=K):
+            bufs = [("t", K + 1, "d"), ("o", (K + 1) ** 2, "d")]
+            rng_ = random.Random(seed + 17 * K)
+            res.functions.add("lagrange_basis<K>")
+            oid = "%s/standin/lagrange_basis<%d>/interpolates-exactly-at-sampled-nodes" % (tag, K)
+            views = ok_paths(xt.run("lag_%d" % K, bufs))
+            if len(views) != 1:
+                res.add(oid, "error", "infra", 0.0, "%d paths" % len(views))
+                return
+            pv = views[0]
+            res.paths += 1
+            out = pv.out("o")
+            nsets = 4 if tier == "quick" else 12
+            bad = None
+            for it in range(nsets):
+                pool = rng_.sample(range(-40, 41), K + 1)
+                if it % 2:
+                    pool = sorted(pool)
+                nodes = [Fraction(v, 8) for v in pool]                 # distinct dyadic nodes (exact doubles)
+                val = dag.eval_exact(out, {"t%d" % i: nodes[i] for i in range(K + 1)})
+                B = [[val[out[i * (K + 1) + j].id] for j in range(K + 1)] for i in range(K + 1)]
+                for j in range(K + 1):
+                    for m in range(K + 1):
+                        pj = sum(B[i][j] * nodes[m] ** i for i in range(K + 1))
+                        if pj != (1 if j == m else 0) and bad is None:
+                            bad = dict(nodes=[float(x) for x in nodes], j=j, m=m, value=float(pj))
+            res.standins.append(dict(function="lagrange_basis<%d>" % K, points=nsets, label="bounded"))
+            if bad is None:
+                res.add(oid, "bounded-ok", "bounded-standin", 0.0, "p_i(t_j) == delta_ij exactly (rational arithmetic) at %d node sets" % nsets)
+            else:
+                res.add(oid, "bounded-fail", "bounded-standin", 0.0, "p_%d(t_%d) = %r" % (bad["j"], bad["m"], bad["value"]), witness=bad,
+                        extra=dict(confirmed=True, replay=write_replay(oid, dict(obligation=oid, property=PROP, witness=bad, function="lag_%d" % K))))
+        guarded(res, "%s/lagrange_basis<%d>" % (tag, K), go2b)
+
     # integrate_absolute_polynomial
     def go3():
         bufs = [("t0", None, "d"), ("t1", None, "d"), ("A", None, "d"), ("B", None, "d"), ("C", None, "d"), ("o", 1, "d")]
@@ -415,7 +453,7 @@ def run_runtime(tier="quick", seed=0):
             res.add(tag + "/integrate_absolute_polynomial/roots", "error", "struct", 0.0, "no path with an interior break point found")
     guarded(res, tag + "/integrate_absolute_polynomial", go3)
     res.unverified += ["integrate_absolute_polynomial: near-degenerate coefficients (|A| or |B| within 1e-9 of zero) are handled approximately; not decided",
-                       "lagrange_basis for K > 3 (symbolic nodes) and concrete node sets up to K = 10"]
+                       "lagrange_basis for K = 5..10 with symbolic nodes (bounded: exact rational evaluation at sampled node sets)"]
     return res
 
 
